@@ -71,7 +71,7 @@ def jobs(tier, seed):
             if ok and any(op in ("f1", "f2") for op in h):
                 hist.append(list(h))
     js = []
-    for cls in ("ThresholdOptimizer", "CorrelationRemover", "GridSearch", "ExponentiatedGradient", "Adversarial", "AdversarialAuto", "ThresholdOptimizerGroups", "ThresholdOptimizerTrain"):
+    for cls in ("ThresholdOptimizer", "CorrelationRemover", "GridSearch", "ExponentiatedGradient", "Adversarial", "AdversarialAuto", "ThresholdOptimizerGroups", "ThresholdOptimizerTrain", "CorrelationRemoverWidth"):
         for ci in range(0, len(hist), 12):
             js.append({"id": f"{cls}-{ci // 12}", "cls": cls, "histories": hist[ci:ci + 12]})
     torch_hist = [h for h in hist if "k" not in h and "c" not in h and len(h) <= 3]
@@ -157,6 +157,15 @@ class CRAdapter(Adapter):
 
     def predict(self, est, D, seed):
         return self.observe(est, D)
+
+
+class CRWidthAdapter(CRAdapter):
+    """the two data sets differ in their NUMBER of columns: a refit replaces the model entirely, exactly like a fresh estimator"""
+
+    def datasets(self, mk):
+        d = CRAdapter.datasets(self, mk)
+        d["f2"] = pd.DataFrame({"a": [2.0, -1.0, 0.5], "b": [0.5, 2.0, 1.0], "s": [1.0, 0.0, 3.0], "c": [1.5, 0.25, -2.0]})
+        return d
 
 
 class GSAdapter(Adapter):
@@ -380,7 +389,7 @@ class AdvTorchAdapter(Adapter):
 
 
 ADAPTERS = {"AdvTorch": AdvTorchAdapter, "ThresholdOptimizer": TOAdapter, "CorrelationRemover": CRAdapter, "GridSearch": GSAdapter, "ExponentiatedGradient": EGAdapter, "Adversarial": AdvAdapter, "AdversarialAuto": AdvAutoAdapter, "ThresholdOptimizerGroups": TOGroupsAdapter,
-            "ThresholdOptimizerTrain": TOTrainAdapter}
+            "ThresholdOptimizerTrain": TOTrainAdapter, "CorrelationRemoverWidth": CRWidthAdapter}
 
 
 def _eq_params(a, b):
